@@ -8,7 +8,7 @@ The group-by key lists are NOT part of the hand-written model: `Frame.groupCols`
 `slices_preserved_*` theorems are re-proved against what `data_frame_input.py` says now. Before fix
 D9 `slices_preserved_keys` was false (country, currency, reinsurance_basis, loss_definition missing).
 -/
-import Bermuda.Lemmas.FrameArray
+import Bermuda.Lemmas.FrameMatrix
 namespace Bermuda.Properties.C14
 open Bermuda Bermuda.Frame Bermuda.Spec.C14
 
@@ -196,6 +196,28 @@ theorem fromArrayFrame_toArrayFrame_inferred {t : List Cell} {field : String} {r
       ((toArrayFrame t field).bind fun rows => fromArrayFrame rows field md none) = true :=
   Frame.fromArrayFrame_toArrayFrame_inferred h hp
 
+/-- **fromMatrix_toMatrix** (`OnGrid t ix`: a strictly sorted cumulative triangle of month-aligned
+cells with numeric scalar values whose period starts lie every `ix.expResolution` months from
+`ix.expOrigin`, whose periods are `ix.expResolution` months long, and whose development lags lie
+every `min(expResolution, devResolution)` months from `ix.devOrigin` — complete or holey, one or
+several slices). The matrix filled from the triangle converts back to the same cells. -/
+theorem fromMatrix_toMatrix {t : List Cell} {ix : MatrixIndex} (h : OnGrid t ix) :
+    okAnd (backSpec t) ((toMatrixWith ix t).bind fromMatrix) = true :=
+  Frame.fromMatrix_toMatrixWith h
+
+/-- … in particular for the index the library infers, whenever the triangle lies on its grid -/
+theorem fromMatrix_toMatrix_inferred {t : List Cell} {ix : MatrixIndex}
+    (hm : isMonthly t = true) (hs : isSemiRegular t = true)
+    (hix : MatrixIndex.ofTriangle t = .ok ix) (h : OnGrid t ix) :
+    okAnd (backSpec t) ((toMatrix t).bind fromMatrix) = true := by
+  have hne : t.isEmpty = false := by
+    cases ht : t with
+    | nil => exact absurd ht h.ne
+    | cons a l => rfl
+  unfold toMatrix
+  simp only [hne, hm, hs, Bool.not_true, Bool.false_eq_true, if_false, hix, Except.bind]
+  exact Frame.fromMatrix_toMatrixWith h
+
 /-- `WFwide` is satisfiable: two slices that differ only in `country`, sampled cells -/
 theorem wfwide_example : WFwide ex ["coverage"] [] where
   ne := by decide
@@ -281,11 +303,13 @@ theorem regular_example : RegularSingle exQ "paid_loss" 3 {} where
 --       ((toLongRows t).bind fun tb => fromLongRows tb []) = true
 --   (incremental triangles with scalar values: one row per cell and field, no grouping, 0-d arrays)
 
--- OPEN fromMatrix_toMatrix
---   theorem fromMatrix_toMatrix {t : List Cell} (h : MonthAlignedSemiRegular t) (hc : cumulative t)
---     (hgrid : ∀ c ∈ t, (c.devLag - devOrigin t) % min (expRes t) (devRes t) = 0) :
---     okAnd (backSpec t) ((toMatrix t).bind fromMatrix) = true
---   (uses `devSpacing = min expResolution devResolution` on both sides — D10 — and C12's
---    `addMonths`/`monthToId`/`idToMonth` laws)
+-- OPEN matrixIndex_onGrid
+--   theorem matrixIndex_onGrid {t : List Cell} {ix : MatrixIndex} (hm : isMonthly t = true)
+--     (hs : isSemiRegular t = true) (hix : MatrixIndex.ofTriangle t = .ok ix) (hc : cumulative, strictly sorted …)
+--     (hcontig : the periods are contiguous and the lags congruent modulo min(exp, dev)) : OnGrid t ix
+--   (the index INFERRED by `MatrixIndex.from_triangle` — gcd of the differences of period boundaries and of
+--    evaluation months — puts the triangle on its grid. With gaps that are not multiples of the period length,
+--    or a holey triangle whose remaining lags are not congruent modulo the step, this is false and the Matrix
+--    form cannot hold the triangle: see notes/agents/c07c14.md. `fromMatrix_toMatrix` takes `OnGrid` as hypothesis.)
 
 end Bermuda.Properties.C14
